@@ -240,7 +240,7 @@ fn worker_main(check: &dyn Check, a: &Args, k: u64, w: u64) -> ! {
     let mut per_sig: BTreeMap<String, u64> = BTreeMap::new();
     let mut sample_cases: Vec<u64> = Vec::new();
     let mut hashes: Vec<(u64, u64)> = Vec::new();
-    const SHAPE_CAP: usize = 3_000_000;
+    const SHAPE_CAP: usize = 1_000_000;
     let mut case = k;
     while case < total {
         progress.set(case);
